@@ -1,0 +1,167 @@
+//go:build verif
+
+package cty
+
+// Contracts on types (C07). Comment-only file.
+//
+//@ global cty.NilType (is_nil_ty $g)
+//@ global cty.DynamicPseudoType (is_dyn_ty $g)
+//@ global cty.Number (is_number_ty $g)
+//@ global cty.String (is_string_ty $g)
+//@ global cty.Bool (is_bool_ty $g)
+//
+//@ func (cty.Type).Equals
+//@   tags C07
+//@   requires (or (is_nil_ty t) (wf_ty t))
+//@   requires (or (is_nil_ty other) (wf_ty other))
+//@   ensures[C07] (= result (ty_eq t other))
+//
+// Interface contract of typeImpl.Equals (assumed at the dynamic call in Type.Equals;
+// each implementer below is verified against the same clause).
+//@ func (cty.typeImpl).Equals
+//@   trusted
+//@   requires (and (wf_ty (mk.cty.Type recv)) (wf_ty other))
+//@   ensures (= result (ty_eq (mk.cty.Type recv) other))
+//
+//@ func (cty.primitiveType).Equals
+//@   tags C07
+//@   requires (wf_ty other)
+//@   ensures[C07] (= result (ty_eq (mk.cty.Type (box<cty.primitiveType> t)) other))
+//
+//@ func (cty.pseudoTypeDynamic).Equals
+//@   tags C07
+//@   requires (wf_ty other)
+//@   ensures[C07] (= result (ty_eq (mk.cty.Type (box<cty.pseudoTypeDynamic> t)) other))
+//
+//@ func (*cty.capsuleType).Equals
+//@   tags C07
+//@   requires (and (wf_ty other) (not (= t 0)))
+//@   ensures[C07] (= result (ty_eq (mk.cty.Type (box<*cty.capsuleType> t)) other))
+//
+//@ func (cty.typeList).Equals
+//@   tags C07
+//@   requires (and (wf_ty other) (wf_ty (mk.cty.Type (box<cty.typeList> t))))
+//@   ensures[C07] (= result (ty_eq (mk.cty.Type (box<cty.typeList> t)) other))
+//
+//@ func (cty.typeMap).Equals
+//@   tags C07
+//@   requires (and (wf_ty other) (wf_ty (mk.cty.Type (box<cty.typeMap> t))))
+//@   ensures[C07] (= result (ty_eq (mk.cty.Type (box<cty.typeMap> t)) other))
+//
+//@ func (cty.typeSet).Equals
+//@   tags C07
+//@   requires (and (wf_ty other) (wf_ty (mk.cty.Type (box<cty.typeSet> t))))
+//@   ensures[C07] (= result (ty_eq (mk.cty.Type (box<cty.typeSet> t)) other))
+//
+//@ func (cty.typeTuple).Equals
+//@   tags C07
+//@   let self (mk.cty.Type (box<cty.typeTuple> t))
+//@   requires (and (wf_ty other) (wf_ty self))
+//@   ensures[C07] (= result (ty_eq self other))
+//@   loop 1 invariant (forall ((j Int)) (! (=> (and (<= (tuple_off self) j) (< j (+ (tuple_off self) $i))) (ty_eq (select (tuple_arr self) j) (select (tuple_arr other) (+ (- j (tuple_off self)) (tuple_off other))))) :pattern ((select (tuple_arr self) j))))
+//
+//@ func (cty.typeObject).Equals
+//@   tags C07
+//@   let self (mk.cty.Type (box<cty.typeObject> t))
+//@   requires (and (wf_ty other) (wf_ty self))
+//@   ensures[C07] (= result (ty_eq self other))
+//@   loop 1 invariant (forall ((k String)) (! (=> (select $visited k) (and (select (obj_dom other) k) (ty_eq (obj_aty self k) (obj_aty other k)) (= (select (obj_opt self) k) (select (obj_opt other) k)))) :pattern ((select $visited k))))
+//@   loop 1 invariant (sub<String> $visited (obj_dom other))
+//
+// ---- accessors (exact panic conditions) --------------------------------------------------------
+//
+//@ func (cty.Type).ElementType
+//@   tags C07
+//@   requires (or (is_nil_ty t) (wf_ty t))
+//@   panics (not (is_coll_ty t))
+//@   ensures[C07] (= result (elem_ty t))
+//
+// Interface contract of collectionTypeImpl.ElementType (three implementers, verified below).
+//@ func (cty.collectionTypeImpl).ElementType
+//@   trusted
+//@   requires (is_coll_ty (mk.cty.Type recv))
+//@   ensures (= result (elem_ty (mk.cty.Type recv)))
+//@ func (cty.typeList).ElementType
+//@   tags C07
+//@   ensures (= result (elem_ty (mk.cty.Type (box<cty.typeList> t))))
+//@ func (cty.typeMap).ElementType
+//@   tags C07
+//@   ensures (= result (elem_ty (mk.cty.Type (box<cty.typeMap> t))))
+//@ func (cty.typeSet).ElementType
+//@   tags C07
+//@   ensures (= result (elem_ty (mk.cty.Type (box<cty.typeSet> t))))
+//
+//@ func (cty.Type).Length
+//@   tags C07
+//@   panics (not (is_tuple_ty t))
+//@   ensures[C07] (= result (tuple_len t))
+//
+//@ func (cty.Type).TupleElementTypes
+//@   tags C07
+//@   panics (not (is_tuple_ty t))
+//@   ensures[C07] (= result (tuple_sl t))
+//
+//@ func (cty.Type).TupleElementType
+//@   tags C07
+//@   panics (or (not (is_tuple_ty t)) (< idx 0) (>= idx (tuple_len t)))
+//@   ensures[C07] (= result (tuple_at t idx))
+//
+//@ func (cty.Type).AttributeTypes
+//@   tags C07
+//@   panics (not (is_obj_ty t))
+//@   ensures[C07] (= result (obj_atys_ptr t))
+//
+//@ func (cty.Type).OptionalAttributes
+//@   tags C07
+//@   panics (not (is_obj_ty t))
+//@   ensures[C07] (= result (obj_opt_ptr t))
+//
+//@ func (cty.Type).HasAttribute
+//@   tags C07
+//@   panics (not (is_obj_ty t))
+//@   ensures[C07] (= result (select (obj_dom t) (nfc name)))
+//
+//@ func (cty.Type).AttributeType
+//@   tags C07
+//@   panics (or (not (is_obj_ty t)) (not (select (obj_dom t) (nfc name))))
+//@   ensures[C07] (= result (obj_aty t (nfc name)))
+//
+//@ func (cty.Type).AttributeOptional
+//@   tags C07
+//@   panics (or (not (is_obj_ty t)) (not (select (obj_dom t) (nfc name))))
+//@   ensures[C07] (= result (select (obj_opt t) (nfc name)))
+//
+// NFC normalization is an external (golang.org/x/text/unicode/norm): an idempotent function on strings.
+//@ func cty.NormalizeString
+//@   trusted
+//@   ensures (= result (nfc s))
+//
+// ---- conformance ---------------------------------------------------------------------------------
+//
+//@ func cty.testConformance
+//@   tags C07 C20
+//@   requires (and (wf_ty given) (wf_ty want) (not (= errs 0)))
+//@   writes Slice errs
+//@   let n0 (Slice.len (select (old $H<Slice>) errs))
+//@   let n (Slice.len (select $H<Slice> errs))
+//@   ensures[C07] grows: (>= n n0)
+//@   ensures[C07] exact: (= (= n n0) (conforms given want))
+//@   loop 1 invariant (and (>= n n0) (= (= n n0) (sub<String> $visited (obj_dom want))))
+//@   loop 2 invariant (and (>= n n0) (= (= n n0) (and (sub<String> (obj_dom given) (obj_dom want)) (sub<String> $visited (obj_dom given)))))
+//@   loop 3 invariant (and (>= n n0) (= (= n n0) (and (= (obj_dom given) (obj_dom want)) (forall ((k String)) (! (=> (select $visited k) (conforms (obj_aty given k) (obj_aty want k))) :pattern ((select $visited k)))))))
+//@   let tupconf (forall ((j Int)) (! (=> (and (<= (tuple_off want) j) (< j (+ (tuple_off want) $i))) (conforms (select (tuple_arr given) (+ (- j (tuple_off want)) (tuple_off given))) (select (tuple_arr want) j))) :pattern ((select (tuple_arr want) j))))
+//@   loop 4 invariant (>= n n0)
+//@   loop 4 invariant (=> (= n n0) tupconf)
+//@   loop 4 invariant (=> tupconf (= n n0))
+//
+//@ func (cty.Type).TestConformance
+//@   tags C07
+//@   requires (and (wf_ty t) (wf_ty other))
+//@   ensures[C07] (= (= (Slice.len result) 0) (conforms t other))
+//
+//@ func (cty.Type).HasDynamicTypes
+//@   tags C07
+//@   requires (wf_ty t)
+//@   ensures[C07] (= result (has_dyn t))
+//@   loop 1 invariant (forall ((k String)) (! (=> (select $visited k) (not (has_dyn (obj_aty t k)))) :pattern ((select $visited k))))
+//@   loop 2 invariant (forall ((j Int)) (! (=> (and (<= (tuple_off t) j) (< j (+ (tuple_off t) $i))) (not (has_dyn (select (tuple_arr t) j)))) :pattern ((select (tuple_arr t) j))))
